@@ -11,6 +11,8 @@
     condition polarity; only block-target slots are rewritten; blocks with defs are never
     bypassed
 Does not decide: validity of the algebraic rewrites (bit-vector identities).
+How: R1 by may-flow from the slot's bindings (in the function or helpers it calls) to an input_vars() that feeds the set;
+R2 by specialising the removal loop per Def kind x alive/dead (is the def kept?).
 """
 from .lib import slots as SL
 from .lib import sym as S
